@@ -2,3 +2,4 @@ import Driver.Common
 import Driver.Slots
 import Driver.Sched
 import Driver.Report
+import Driver.Spell
